@@ -66,7 +66,7 @@ func cmdVerify(args []string) {
 	var blocks []*Block
 	pkgs := map[string]bool{}
 	for _, b := range prog.BlockList {
-		if b.Kind != "func" && b.Kind != "lemma" {
+		if (b.Kind != "func" && b.Kind != "lemma") || b.Axiom {
 			continue
 		}
 		if !re.MatchString(b.QName()) {
